@@ -9,7 +9,8 @@ use pq_read::*;
 fn agree_case(c: &mut Case, nconfigs: usize) -> CaseResult {
     let f = gen_file(c)?;
     f.file_classes(c);
-    let opts = CfgOpts { sel: 170, preds: 170, offlim: 110, with_cache: true };
+    let opts = CfgOpts { sel: 170, preds: 160, offlim: 80, with_cache: true };
+    let mut nonempty = 0;
     for k in 0..nconfigs {
         let cfg = gen_cfg(&mut c.tape, &f, &opts);
         cfg.classes(&f, c);
@@ -30,6 +31,8 @@ fn agree_case(c: &mut Case, nconfigs: usize) -> CaseResult {
             Ok(o) => {
                 if o.nrows == 0 {
                     c.class("result:empty");
+                } else {
+                    nonempty += 1;
                 }
             }
             Err(_) => c.class("sync:err"),
@@ -96,6 +99,7 @@ fn agree_case(c: &mut Case, nconfigs: usize) -> CaseResult {
             c.class("nontrivial-config");
         }
     }
+    c.class(format!("configs-with-rows:{}/4", nonempty * 4 / nconfigs.max(1)));
     Ok(())
 }
 
@@ -115,7 +119,7 @@ fn main() {
     .assume("into_builder() is only followed by build() with unchanged options; clear_all_ranges is never called")
     .assume("no-progress rule: a range in NeedsData that is covered by a buffer supplied since the immediately preceding NeedsData is a violation; request rounds are bounded by row groups x (predicates+1) + 2")
     .sub(
-        Sub::new("agree", 200, 3000, sub_agree).tape(400, 6000).require(&[
+        Sub::new("agree", 10000, 100000, sub_agree).tape(1500, 8000).require(&[
             "async:pending",
             "async:always-ready",
             "async:vectored",
